@@ -21,12 +21,12 @@ Definition g0 : cfg := mkCfg [rule_crit] 100 10 10 (2#1) (1#2) 1000.
 Definition g_norules : cfg := mkCfg [] 100 10 10 (2#1) (1#2) 1000.
 
 Definition watcher : tcell := fresh_tcell prof0 3 5.
-Definition s_plain : sys := mkSys (Some watcher) [] (Some (mkRec 0 0)) 0 0.
-Definition s_flagged : sys := mkSys (Some (tcell_flag watcher true)) [] (Some (mkRec 0 0)) 0 0.
-Definition remembered_slow : msig := mkSig 0 1 1 LConf AIsolate 0 0.
-Definition s_memory : sys := mkSys (Some watcher) [remembered_slow] (Some (mkRec 0 0)) 0 0.
+Definition s_plain : sys := mkSys (Some watcher) [] (Some (mkRec 0 0 false [])) 0 0.
+Definition s_flagged : sys := mkSys (Some (tcell_flag watcher true)) [] (Some (mkRec 0 0 false [])) 0 0.
+Definition remembered_slow : msig := mkSig 0 1 1 LConf AIsolate 0 0 [].
+Definition s_memory : sys := mkSys (Some watcher) [remembered_slow] (Some (mkRec 0 0 false [])) 0 0.
 Definition anergic_watcher : tcell := mkT prof0 3 5 2 5 true S1NonSelf S2None.
-Definition s_anergic : sys := mkSys (Some anergic_watcher) [remembered_slow] (Some (mkRec 0 0)) 0 0.
+Definition s_anergic : sys := mkSys (Some anergic_watcher) [remembered_slow] (Some (mkRec 0 0 false [])) 0 0.
 
 (* c17_two_signals is not vacuous: manual flag + one violation -> CONFIRMED / ISOLATE *)
 Example ex_two_signals_manual :
@@ -59,7 +59,7 @@ Proof. vm_compute. auto. Qed.
 (* inside the baseline with a manual flag, a remembered threat with the same
    hashes and a long anomaly count: NONE / IGNORE *)
 Example ex_inside_baseline :
-  let s := mkSys (Some (mkT prof0 3 5 7 0 true S1NonSelf S2Repeat)) [remembered_slow] (Some (mkRec 0 0)) 0 0 in
+  let s := mkSys (Some (mkT prof0 3 5 7 0 true S1NonSelf S2Repeat)) [remembered_slow] (Some (mkRec 0 0 false [])) 0 0 in
   check prof0 inside = [] /\
   exists s', sys_step id_rnd false g0 s (OInspect (Some inside))
              = (s', OutResp (mkResp LNone AIgnore S1Self S2Manual [] false)
@@ -99,7 +99,7 @@ Proof. eexists. vm_compute. reflexivity. Qed.
 (* the stable-agent shortcut on a hand-made SUSPICIOUS / shutdown response goes
    straight to ignore: why c17_treg_evaluate_one_step has its side condition *)
 Example ex_stable_shortcut :
-  sp_mod (treg_evaluate [] 0 (mkResp LSusp AShutdown S1NonSelf S2None [] false) (mkRec 0 0)) = AIgnore.
+  sp_mod (treg_evaluate [] 0 (mkResp LSusp AShutdown S1NonSelf S2None [] false) (mkRec 0 0 false [])) = AIgnore.
 Proof. vm_compute. reflexivity. Qed.
 
 (* training succeeds on a window and the hypotheses of the self-tolerance theorem hold *)
@@ -193,7 +193,7 @@ Example ex_current_window :
   map (fun x => match x with
                 | (d, _, AInspect, OutResp r _) => (d_obs d, level_code (r_level r))
                 | (d, _, _, _) => (d_obs d, -1) end)
-      (api_run pf_demo id_rnd false g_norules (mkDisp 2 2 [] []) (mkSys None [] (Some (mkRec 0 0)) 0 0) hist)
+      (api_run pf_demo id_rnd false g_norules (mkDisp 2 2 [] []) (mkSys None [] (Some (mkRec 0 0 false [])) 0 0) hist)
   = [([], -1); ([0], -1); ([0; 0], -1); ([0; 0], -1); ([0; 1], -1); ([0; 1], 2);
      ([0; 1], -1); ([1; 0], -1); ([0; 0], 0)] /\
   lastn 2 (recorded [] (firstn 8 hist)) = [0; 0].
@@ -210,7 +210,7 @@ Proof. split; [vm_compute; reflexivity|constructor]. Qed.
    later prune_old(1 hour) removes it and a feed about another agent is imported;
    the same pattern, seen once, with the flag cleared: SUSPICIOUS, not recalled *)
 Example ex_forgotten_threat :
-  let feed := [mkSig 1 7 7 LConf AIsolate 80000 0] in
+  let feed := [mkSig 1 7 7 LConf AIsolate 80000 0 []] in
   let tr := run id_rnd false g_norules s_flagged
               [OInspect (Some slow); OReset; OAdvance 86400; OPruneOld 3600; OImport feed; OInspect (Some slow)] in
   map (fun x => match snd x with OutResp r _ => (level_code (r_level r), r_viol r) | _ => (-1, []) end) tr
@@ -231,6 +231,44 @@ Proof. vm_compute. reflexivity. Qed.
 Example ex_capacity :
   let g := mkCfg [] 100 10 10 (2#1) (1#2) 2 in
   map m_vh (s_mem (final id_rnd false g s_plain
-     [OStore (mkSig 0 1 1 LConf AIsolate 0 0); OAdvance 1; OStore (mkSig 0 2 2 LConf AIsolate 0 0);
-      OAdvance 1; OTouch 0 1 1; OAdvance 1; OStore (mkSig 0 3 3 LConf AIsolate 0 0)])) = [1; 3].
+     [OStore (mkSig 0 1 1 LConf AIsolate 0 0 []); OAdvance 1; OStore (mkSig 0 2 2 LConf AIsolate 0 0 []);
+      OAdvance 1; OTouch 0 1 1; OAdvance 1; OStore (mkSig 0 3 3 LConf AIsolate 0 0 [])])) = [1; 3].
+Proof. vm_compute. reflexivity. Qed.
+
+(* ---------------------------------------------------------------------- *)
+(* the tolerance record: temporary tolerance after an update, tolerated violations *)
+
+(* the canonical rule "lambda resp, rec: rec.recent_update": silent before
+   mark_agent_updated, one step down (isolate -> monitor) after it, and a
+   CRITICAL response is left alone although the rule's max severity is CRITICAL *)
+Example ex_recent_update_rule :
+  let g := mkCfg [mkRule LCrit (interp_cond CRecent)] 100 10 10 (2#1) (1#2) 1000 in
+  let tr := run id_rnd false g s_flagged
+              [OInspect (Some slow); OClearMem; OMarkUpdated; OInspect (Some slow); OClearMem; OInspect (Some wild)] in
+  map (fun x => match snd x with
+                | OutResp r _ => (level_code (r_level r), action_code (r_action r))
+                | _ => (-1, -1) end) tr
+  = [(2, 2); (-1, -1); (-1, -1); (2, 1); (-1, -1); (3, 3)].
+Proof. vm_compute. reflexivity. Qed.
+
+(* a rule that tolerates registered violation kinds: response_time (code 2) is
+   tolerated, so the slow fingerprint is lowered one step; the level stays CONFIRMED *)
+Example ex_tolerated_violation_rule :
+  let g := mkCfg [mkRule LConf (interp_cond CTolerated)] 100 10 10 (2#1) (1#2) 1000 in
+  let tr := run id_rnd false g s_flagged
+              [OTolerate 5; OInspect (Some slow); OClearMem; OTolerate 2; OTolerate 2; OInspect (Some slow)] in
+  map (fun x => match snd x with
+                | OutResp r _ => (level_code (r_level r), action_code (r_action r))
+                | _ => (-1, -1) end) tr
+  = [(-1, -1); (2, 2); (-1, -1); (-1, -1); (-1, -1); (2, 1)] /\
+  option_map rc_tolerated (s_rec (final id_rnd false g s_flagged [OTolerate 5; OTolerate 2; OTolerate 2])) = Some [2; 5].
+Proof. vm_compute. auto. Qed.
+
+(* a partial recall touches the first signature of that agent with a common
+   violation type: with capacity 2 the untouched one is the victim of the next store *)
+Example ex_partial_recall :
+  let g := mkCfg [] 100 10 10 (2#1) (1#2) 2 in
+  map m_vh (s_mem (final id_rnd false g s_plain
+     [OStore (mkSig 0 1 1 LConf AIsolate 0 0 [2]); OAdvance 1; OStore (mkSig 0 2 2 LConf AIsolate 0 0 [4; 5]);
+      OAdvance 1; OTouchPartial 0 [1; 2]; OAdvance 1; OStore (mkSig 0 3 3 LConf AIsolate 0 0 [])])) = [1; 3].
 Proof. vm_compute. reflexivity. Qed.
